@@ -84,6 +84,7 @@ type Scenario struct {
 	BatchLogs   int          `json:"batchLogs"`             // defs.IntermediateBufferMaxNumLogs
 	Reloader    bool         `json:"reloader,omitempty"`    // run with NewReloaderFromConfigFile
 	Family      string       `json:"family,omitempty"`      // generator family (classification only)
+	TLS         bool         `json:"tls,omitempty"`         // the outputs connect with tls: true; the fake upstream answers with a self-signed certificate (the client does not verify)
 	Secret      bool         `json:"secret,omitempty"`      // the outputs use a shared key: every upstream connection starts with the Forward handshake
 	RotateMs    int          `json:"rotateMs,omitempty"`    // upstream.maxDuration in ms (0 = 30 min): periodic reconnection, i.e. the client's soft stop with chunks in flight
 	FlushMs     int          `json:"flushMs,omitempty"`     // defs.IntermediateFlushInterval in ms (0 = 20): a long interval lets chunks fill up to the byte limit
@@ -249,8 +250,8 @@ func configText(sc Scenario, root string, servers []string, variant string) stri
 	b.WriteString("outputBufferPairs:\n")
 	for i, mode := range sc.Modes {
 		hidden := "[kind, extradata, facility, pid, time]"
-		b.WriteString(fmt.Sprintf("  - name: out%d\n    buffer:\n      type: hybridBuffer\n      rootPath: %s\n      maxBufSize: %s\n    output:\n      type: fluentdForward\n      serialization:\n        environmentFields: [host, app]\n        hiddenFields: %s\n      messageMode: %s\n      upstream:\n        address: %s\n        tls: false\n        secret: \"%s\"\n        maxDuration: %s\n",
-			i, filepath.Join(root, fmt.Sprintf("out%d", i)), maxBuf, hidden, mode, servers[i], secretOf(sc), rotation(sc)))
+		b.WriteString(fmt.Sprintf("  - name: out%d\n    buffer:\n      type: hybridBuffer\n      rootPath: %s\n      maxBufSize: %s\n    output:\n      type: fluentdForward\n      serialization:\n        environmentFields: [host, app]\n        hiddenFields: %s\n      messageMode: %s\n      upstream:\n        address: %s\n        tls: %v\n        secret: \"%s\"\n        maxDuration: %s\n",
+			i, filepath.Join(root, fmt.Sprintf("out%d", i)), maxBuf, hidden, mode, servers[i], sc.TLS, secretOf(sc), rotation(sc)))
 	}
 	if moreOutputs {
 		b.WriteString(fmt.Sprintf("  - name: outextra\n    buffer:\n      type: hybridBuffer\n      rootPath: %s\n      maxBufSize: 200MB\n    output:\n      type: fluentdForward\n      serialization:\n        environmentFields: [host, app]\n        hiddenFields: [kind]\n      messageMode: Forward\n      upstream:\n        address: 127.0.0.1:1\n        tls: false\n        secret: \"\"\n        maxDuration: 30m\n",
@@ -480,6 +481,9 @@ func runScenario(sc Scenario) *Outcome {
 			panic(err)
 		}
 		s.Secret = secretOf(sc)
+		if sc.TLS {
+			s.TLS = vh.SelfSignedTLS()
+		}
 		servers[i], addrs[i] = s, s.Addr
 	}
 	defer func() {
@@ -510,6 +514,9 @@ func runScenario(sc Scenario) *Outcome {
 					continue
 				}
 				ns.Secret = secretOf(sc)
+				if sc.TLS {
+					ns.TLS = vh.SelfSignedTLS()
+				}
 				servers[i] = ns
 			}
 			if servers[i] != nil && i < len(g.Upstream) {
